@@ -6,6 +6,7 @@ UUID/Offset entry) is compared by identity with the object found by *walking
 the containment tree* (never by get_by_uuid).  Negative monitor: files with
 exactly one dangling or ill-typed reference of each kind must raise
 DeserializationError."""
+import collections
 import uuid as _uuid
 
 from .. import auxgen, foreign, irbuild, irio, refcodec, spec as gspec
@@ -69,6 +70,39 @@ def positive(ctx, gt, ir, sp):
                 "under that UUID (%s)" % (what, "a copy" if obj.uuid in tm
                                           else "not attached at all"), {})
 
+    # every reference the file names must be there, as that very object
+    # (a reference silently dropped is not "the object reachable ...")
+    if sp is not None:
+        U = lambda h: tm.get(_uuid.UUID(hex=h))
+
+        def named(holder, attr, want_hex, key):
+            ctx.count("named_reference:" + key)
+            got = getattr(holder, attr) if holder is not None else None
+            if got is None or got is not U(want_hex):
+                raise Discrepancy(
+                    "C09", "reference-lost-or-redirected:" + key,
+                    "the file names %s as %s of %s, the loaded IR has %s"
+                    % (want_hex, key, type(holder).__name__,
+                       "nothing" if got is None else "another object"), {})
+        for ms in sp["modules"]:
+            if ms["entry_point"]:
+                named(U(ms["uuid"]), "entry_point", ms["entry_point"],
+                      "entry_point")
+            for ys in ms["symbols"]:
+                if ys["payload"] and "ref" in ys["payload"]:
+                    named(U(ys["uuid"]), "referent", ys["payload"]["ref"],
+                          "symbol_referent")
+        want_edges = collections.Counter(
+            (e["src"], e["tgt"]) for e in sp["edges"])
+        got_edges = collections.Counter(
+            (e.source.uuid.hex, e.target.uuid.hex) for e in ir.cfg)
+        ctx.count("named_reference:edges")
+        if set(want_edges) - set(got_edges):
+            raise Discrepancy(
+                "C09", "reference-lost-or-redirected:edge",
+                "the file names CFG edges between %s that the loaded IR "
+                "does not have" % (sorted(set(want_edges) -
+                                          set(got_edges))[:3],), {})
     for m in ir.modules:
         if m.entry_point is not None:
             same(m.entry_point, "module.entry_point", "entry_point")
@@ -250,7 +284,8 @@ def dup_uuid_cases(ctx, case, gt, sp):
             continue
         ctx.count("dup_uuid:accepted")
         try:
-            positive(ctx, gt, ir, sp)
+            # the spec no longer describes this file: identity only
+            positive(ctx, gt, ir, None)
         except Discrepancy as d:
             raise Discrepancy(d.prop, d.mechanism + ":" + name,
                               "file with %s: %s" % (name, d.what), d.detail)
